@@ -76,6 +76,12 @@ def corpus():
              request=[W.query(OWN, MAPPER, 9)], post_ops=["MTU 0 1500 11"], post=probes(1, base=30) + [W.query(OWN, MAPPER, 10), W.qlt(OWN, MAPPER, 11, 0x0E, 0)]),
         dict(name="qlt-icon-mtu-grows-mid-transfer", wifi=0, mtu=576, request_mtu=1500, setup=[disc, W.qlt(OWN, MAPPER, 3, 0x0E, 0)], pre_ops=["MTU 0 1500 11"],
              request=[W.qlt(OWN, MAPPER, 4, 0x0E, 542)], post_ops=["MTU 0 576 11"], post=[W.qlt(OWN, MAPPER, 5, 0x0E, 542), W.qlt(OWN, MAPPER, 6, 0x0E, 0)]),
+        # the icon has been delivered completely (3000 bytes: three responses at MTU 1500) and is asked for again, from the
+        # start, in the middle and past its end, while the platform runs short of memory
+        dict(name="qlt-icon-asked-again-after-delivery", wifi=0, mtu=1500,
+             setup=[disc, W.qlt(OWN, MAPPER, 3, 0x0E, 0), W.qlt(OWN, MAPPER, 4, 0x0E, P), W.qlt(OWN, MAPPER, 5, 0x0E, 2 * P)],
+             request=[W.qlt(OWN, MAPPER, 6, 0x0E, 100), W.qlt(OWN, MAPPER, 7, 0x0E, 0), W.qlt(OWN, MAPPER, 8, 0x0E, 2 * P), W.qlt(OWN, MAPPER, 9, 0x0E, 3000)],
+             post=[W.qlt(OWN, MAPPER, 10, 0x0E, 0), W.qlt(OWN, MAPPER, 11, 0x0E, P)]),
         dict(name="qlt-offset-past-end", wifi=0, mtu=1500, setup=[disc],
              request=[W.qlt(OWN, MAPPER, 3, 0x0E, 0x7FFF), W.qlt(OWN, MAPPER, 4, 0x11, 0x7FFF), W.qlt(OWN, MAPPER, 5, 0x13, 65)]),
     ]
